@@ -79,6 +79,7 @@ type Stats struct {
 	KnownReported  []string          `json:"known_reported,omitempty"`
 	Extra          map[string]int    `json:"extra,omitempty"`
 	seen           map[uint64]struct{}
+	firstCase      []byte
 	mu             sync.Mutex
 	sampleInterval int
 }
@@ -113,6 +114,9 @@ func (s *Stats) record(o *Obs, enc []byte) {
 	s.mu.Lock()
 	defer s.mu.Unlock()
 	s.Evaluations++
+	if s.firstCase == nil {
+		s.firstCase = append([]byte(nil), enc...)
+	}
 	for _, l := range o.labels {
 		s.Classes[l]++
 	}
@@ -144,6 +148,14 @@ func (s *Stats) write() {
 	s.mu.Lock()
 	defer s.mu.Unlock()
 	s.Distinct = len(s.seen)
+	if len(s.Samples) == 0 && s.firstCase != nil {
+		// no non-trivial case was seen (a run cut short): still show what a case looks like
+		e := s.firstCase
+		if len(e) > 3000 {
+			e, _ = json.Marshal(map[string]interface{}{"truncated_case_json_prefix": string(e[:2500])})
+		}
+		s.Samples = append(s.Samples, json.RawMessage(e))
+	}
 	s.Hashes = s.Hashes[:0]
 	for k := range s.seen {
 		s.Hashes = append(s.Hashes, k)
